@@ -2,7 +2,7 @@
 
 use std::collections::HashMap;
 
-use in_toto::interchange::{DataInterchange, Json};
+use in_toto::interchange::{DataInterchange, Json, JsonPretty};
 use in_toto::models::inspection::Inspection;
 use in_toto::models::step::Step;
 use in_toto::models::supply_chain_item::SupplyChainItem;
@@ -23,14 +23,38 @@ pub fn canon(case: &Value) -> Value {
                 continue;
             }
         };
-        out.push(match guarded(|| Json::canonicalize(&v)) {
-            Ok(Ok(b)) => match String::from_utf8(b) {
-                Ok(s) => json!({"ok": s}),
-                Err(e) => json!({"ok_hex": hex(e.as_bytes())}),
-            },
-            Ok(Err(e)) => json!({"err": clip(&e.to_string())}),
-            Err(p) => json!({"panic": p}),
+        fn render(
+            r: Result<in_toto::Result<Vec<u8>>, Value>,
+        ) -> Value {
+            match r {
+                Ok(Ok(b)) => match String::from_utf8(b) {
+                    Ok(s) => json!({"ok": s}),
+                    Err(e) => json!({"ok_hex": hex(e.as_bytes())}),
+                },
+                Ok(Err(e)) => json!({"err": clip(&e.to_string())}),
+                Err(p) => json!({"panic": p}),
+            }
+        }
+        let mut r = render(guarded(|| Json::canonicalize(&v)));
+        // the other public routes to the canonical encoding of a value
+        let others = json!({
+            "Json::to_writer": render(guarded(|| {
+                let mut buf = Vec::new();
+                Json::to_writer(&mut buf, &v).map(|_| buf)
+            })),
+            "JsonPretty::canonicalize": render(guarded(|| JsonPretty::canonicalize(&v))),
+            "Json::canonicalize(Json::serialize)": render(guarded(|| {
+                Json::canonicalize(&Json::serialize(&v)?)
+            })),
         });
+        let same = others
+            .as_object()
+            .map(|m| m.values().all(|o| *o == r))
+            .unwrap_or(false);
+        if !same {
+            r["routes"] = others;
+        }
+        out.push(r);
     }
     json!({"res": out})
 }
